@@ -72,7 +72,12 @@ def run(tier, seed):
         nscreen += nsc
         log("[screen] %s: %d random operand pairs screened, %d suspect operand sets handed to TLC (+%d controls)" % (
             field, nsc, sum(1 for x in scr if x["suspect"]), sum(1 for x in scr if not x["suspect"])))
-        scns = pairs + rnd + [{"inits": x["inits"], "ops": x["ops"]} for x in scr]
+        rcv = vlib.run_tlc("Gen_Field", "Gen_Field_" + field, workers=1, env={"GF_MODE": "convs", "GF_DEPTH": 0}, tag="Gen_Field_%s_convs" % field, xmx="2g")
+        convs = [p for p in rcv.printed if "convs" in p]
+        if len(convs) != 1:
+            raise vlib.ToolError("Gen_Field (convs) printed %d records" % len(convs))
+        states += rcv.distinct
+        scns = pairs + rnd + [{"inits": x["inits"], "ops": x["ops"]} for x in scr] + convs
         nscn += len(scns)
         samples.append({"field": field, "scenario": {"inits": scns[0]["inits"], "ops": scns[0]["ops"][:5]}})
         sp = os.path.join(wd, "scn_%s.ndjson" % field)
@@ -106,6 +111,11 @@ def run(tier, seed):
         recs = open(f).read().splitlines()
         ev = json.loads(recs[line - 1]) if 0 < line <= len(recs) else {}
         what = ev.get("op", ev.get("ev", "?"))
+        if ev.get("ev") == "conv":
+            v.violation("field/%s/conv" % field, "%s: an integer <-> element conversion of the integer %s disagrees with integer arithmetic modulo the prime: to the field %s, from the field (element %s) %s" % (
+                field, ev.get("v"), [(c["name"], c["ok"], c["r"]) for c in ev.get("to", [])], ev.get("elem"), [(c["name"], c["ok"], c["r"]) for c in ev.get("from", [])]),
+                {"trace": f, "line": line, "event": ev})
+            continue
         flags = [k for k in ("fresh_eq", "ser_eq", "hash_eq", "bytes_eq") if ev.get(k) is False]
         kind = "representation" if flags else ("constants" if ev.get("ev") == "field" else ("panic" if ev.get("ev") == "panic" else "value"))
         v.violation("field/%s/%s/%s" % (field, what, kind),
@@ -120,7 +130,7 @@ def run(tier, seed):
         "states": states, "transitions": trans, "traces_validated_against_impl": accepted,
         "samples": samples, "evaluations": events, "distinct_nontrivial": nscn,
         "rule": "per field: boundary-pair scenarios (20 operand classes squared x residue/Montgomery image, every operation incl. 10 exponents and 6 small "
-                "multipliers)%s plus random 8-operation sequences, plus the operand sets singled out by mass screening; every event recomputed by TLC" % (" (every 24th in the quick tier)" if tier == "quick" else ""),
+                "multipliers)%s plus every integer <-> element conversion on ~40 integers up to 128 bits (type widths, modulus multiples, low word canonical), plus random 8-operation sequences, plus the operand sets singled out by mass screening; every event recomputed by TLC" % (" (every 24th in the quick tier)" if tier == "quick" else ""),
         "exhaustive": False, "shards_accepted": accepted, "shards": len(jobs), "screened_random_operand_pairs": nscreen,
         "known_finding_occurrences": v.n_known, "new_violations": v.n_new,
     }, time.time() - t0, violations=v.n_new,
